@@ -6,6 +6,7 @@ import (
 	"reflect"
 	"sort"
 
+	"github.com/risor-io/risor/internal/verifhook"
 	"github.com/risor-io/risor/op"
 )
 
@@ -257,6 +258,7 @@ func newGoType(typ reflect.Type) (*GoType, error) {
 // A type registry is maintained behind the scenes to ensure that each type
 // is only registered once.
 func NewGoType(typ reflect.Type) (*GoType, error) {
+	verifhook.Yield("reg.lock")
 	goTypeMutex.Lock()
 	defer goTypeMutex.Unlock()
 
